@@ -61,6 +61,11 @@ REGISTRY["C16"] = ptg("C16", ["prop=16", "nranks=1", "again_pct=40"], 1, "; bodi
 REGISTRY["C05"] = ptg("C05", ["prop=5"], 4, "; 1-4 ranks, runtime_comm_coll_bcast in {default,0,1,2}, short_limit, aggregate, thread_multiple, simulated network adversities", engine="simcore-L2")
 REGISTRY["C15"] = ptg("C15", ["prop=15", "nranks=1", "hist=15"], 1, "; compositions of 1-20 taskpools (crossing the realloc boundary at 16), optionally next to an independent taskpool")
 REGISTRY["C06"] = ptg("C06", ["prop=6", "nranks=1", "hist=6"], 1, "; API histories of 1-4 start/wait epochs with 1-3 PTG taskpools each, added before or after start or from a completion callback, parsec_context_test and parsec_taskpool_wait in between")
+PTG_DYN = [(p, m + "+dyn") for p in ("chain", "branch", "wave", "gather", "newnull", "startup", "mcast") for m in ("dynamic-hash-table",)] + [("steps", "index-array+dyn")]
+REGISTRY["C11"] = ptg("C11", ["prop=11"], 5, "; programs compiled with ptgpp --dynamic-termdet (real four-counter module, real remote_dep message accounting, wave messages over simmpi), 1-5 ranks; "
+                      "oracle at every termination callback: no task pending anywhere, no application message in flight; every rank detects termination exactly once", progs=PTG_DYN, engine="simcore-L2")
+REGISTRY["C12"] = ptg("C12", ["prop=12"], 8, "; user-triggered termination program, 1-8 ranks, every root (global R), notifications observed on the simulated network", progs=[("utt", "dynamic-hash-table"), ("utt", "index-array")], engine="simcore-L2")
+REGISTRY["C13"] = ptg("C13", ["prop=13"], 8, "; 1-8 ranks, comm_coll_bcast in {default,0,1,2}; activation headers decoded on the simulated network", progs=[("mcast", "dynamic-hash-table"), ("mcast", "index-array"), ("newnull", "dynamic-hash-table"), ("branch", "dynamic-hash-table"), ("wave", "dynamic-hash-table"), ("gather", "dynamic-hash-table")], engine="simcore-L2")
 
 # fragments written per property (one file each, so that harnesses can be developed independently)
 import glob, os as _os
